@@ -43,7 +43,7 @@ Qed.
 
 (* ---------------- reachability = all interleavings ---------------- *)
 Inductive reach (P : proto) : mstate -> Prop :=
-| reach_init : reach P (init P)
+| reach_init : reach P (own_init P)
 | reach_step s s' : reach P s -> In s' (succs P s) -> reach P s'.
 
 Lemma check_sound P S : check P S = true -> forall s, reach P s -> In s S /\ viol s = 0.
@@ -73,25 +73,25 @@ Inductive reach_from (P : proto) (s0 : mstate) : mstate -> Prop :=
 Lemma reach_from_trans P a b c : reach_from P a b -> reach_from P b c -> reach_from P a c.
 Proof. intros Hab Hbc. induction Hbc; auto. eapply rf_step; eauto. Qed.
 
-Lemma reach_from_init P s : reach_from P (init P) s -> reach P s.
+Lemma reach_from_init P s : reach_from P (own_init P) s -> reach P s.
 Proof.
-  intros H. remember (init P) as s0 eqn:E. induction H as [|s s' H IH Hin]; subst; [constructor|].
+  intros H. remember (own_init P) as s0 eqn:E. induction H as [|s s' H IH Hin]; subst; [constructor|].
   eapply reach_step; [apply IH; reflexivity|exact Hin].
 Qed.
 
 Lemma run_T P s t k r :
-  run P s (T t k :: r) =
+  own_run P s (T t k :: r) =
   if t <? length (p_threads P)
-  then match nth_error (tstep P s t) k with Some s' => run P s' r | None => None end else None.
+  then match nth_error (tstep P s t) k with Some s' => own_run P s' r | None => None end else None.
 Proof. reflexivity. Qed.
 
 Lemma run_E P s o r :
-  run P s (E o :: r) =
+  own_run P s (E o :: r) =
   if o <? length (p_own0 P)
-  then match envstep P s o with s' :: _ => run P s' r | [] => None end else None.
+  then match envstep P s o with s' :: _ => own_run P s' r | [] => None end else None.
 Proof. reflexivity. Qed.
 
-Lemma run_reach_from P sched : forall s s', run P s sched = Some s' -> reach_from P s s'.
+Lemma run_reach_from P sched : forall s s', own_run P s sched = Some s' -> reach_from P s s'.
 Proof.
   induction sched as [|p r IH]; intros s s' H.
   - cbn in H. inversion H; subst. constructor.
@@ -109,22 +109,22 @@ Proof.
       exists o. split; [apply in_seq; lia|]. rewrite E. now left.
 Qed.
 
-Lemma run_reach P sched s : run P (init P) sched = Some s -> reach P s.
+Lemma run_reach P sched s : own_run P (own_init P) sched = Some s -> reach P s.
 Proof. intros H. apply reach_from_init. eapply run_reach_from; eauto. Qed.
 
 (* ---------------- certificates: every reachable state of each protocol of the (fixed) tree is violation-free ---------------- *)
-Lemma udp_safe : safe_proto P_udp.           Proof. apply certified. vm_compute. reflexivity. Qed.
-Lemma tcp_safe : safe_proto P_tcp.           Proof. apply certified. vm_compute. reflexivity. Qed.
-Lemma http_safe : safe_proto P_http.         Proof. apply certified. vm_compute. reflexivity. Qed.
-Lemma gnet_safe : safe_proto (P_gnet true).  Proof. apply certified. vm_compute. reflexivity. Qed.
-Lemma pipeline_safe : safe_proto (P_pipeline false). Proof. apply certified. vm_compute. reflexivity. Qed.
-Lemma reuse_fixed_safe : safe_proto P_reuse_fixed.   Proof. apply certified. vm_compute. reflexivity. Qed.
-Lemma quic_safe : safe_proto P_quic.         Proof. apply certified. vm_compute. reflexivity. Qed.
-Lemma cache_safe : safe_proto (P_cache true). Proof. apply certified. vm_compute. reflexivity. Qed.
+Lemma udp_safe : safe_proto Pown_udp.           Proof. apply certified. vm_compute. reflexivity. Qed.
+Lemma tcp_safe : safe_proto Pown_tcp.           Proof. apply certified. vm_compute. reflexivity. Qed.
+Lemma http_safe : safe_proto Pown_http.         Proof. apply certified. vm_compute. reflexivity. Qed.
+Lemma gnet_safe : safe_proto (Pown_gnet true).  Proof. apply certified. vm_compute. reflexivity. Qed.
+Lemma pipeline_safe : safe_proto (Pown_pipeline false). Proof. apply certified. vm_compute. reflexivity. Qed.
+Lemma reuse_fixed_safe : safe_proto Pown_reuse_fixed.   Proof. apply certified. vm_compute. reflexivity. Qed.
+Lemma quic_safe : safe_proto Pown_quic.         Proof. apply certified. vm_compute. reflexivity. Qed.
+Lemma cache_safe : safe_proto (Pown_cache true). Proof. apply certified. vm_compute. reflexivity. Qed.
 
 (* the recycling protocols as they are in the tree after the D14 fix *)
 Definition protocols : list proto :=
-  [P_udp; P_tcp; P_http; P_gnet true; P_pipeline false; P_reuse_fixed; P_quic; P_cache true].
+  [Pown_udp; Pown_tcp; Pown_http; Pown_gnet true; Pown_pipeline false; Pown_reuse_fixed; Pown_quic; Pown_cache true].
 
 Lemma protocols_safe P : In P protocols -> safe_proto P.
 Proof.
@@ -171,14 +171,14 @@ Definition d14_schedule : list pick := sched_cancel_before_write 4 1 false.
 Definition d14_schedule_env : list pick := sched_cancel_before_write 4 1 true.
 
 Lemma reuse_pinned_refuted :
-  (exists s, run P_reuse_pinned (init P_reuse_pinned) d14_schedule = Some s /\ reach P_reuse_pinned s /\ viol s = 1) /\
-  (exists s, run P_reuse_pinned (init P_reuse_pinned) d14_schedule_env = Some s /\ reach P_reuse_pinned s /\ viol s = 2).
+  (exists s, own_run Pown_reuse_pinned (own_init Pown_reuse_pinned) d14_schedule = Some s /\ reach Pown_reuse_pinned s /\ viol s = 1) /\
+  (exists s, own_run Pown_reuse_pinned (own_init Pown_reuse_pinned) d14_schedule_env = Some s /\ reach Pown_reuse_pinned s /\ viol s = 2).
 Proof.
   split.
-  - destruct (run P_reuse_pinned (init P_reuse_pinned) d14_schedule) as [s|] eqn:E; [|vm_compute in E; discriminate].
+  - destruct (own_run Pown_reuse_pinned (own_init Pown_reuse_pinned) d14_schedule) as [s|] eqn:E; [|vm_compute in E; discriminate].
     exists s. split; auto. split; [eapply run_reach; eauto|].
     vm_compute in E. inversion E. reflexivity.
-  - destruct (run P_reuse_pinned (init P_reuse_pinned) d14_schedule_env) as [s|] eqn:E; [|vm_compute in E; discriminate].
+  - destruct (own_run Pown_reuse_pinned (own_init Pown_reuse_pinned) d14_schedule_env) as [s|] eqn:E; [|vm_compute in E; discriminate].
     exists s. split; auto. split; [eapply run_reach; eauto|].
     vm_compute in E. inversion E. reflexivity.
 Qed.
@@ -193,17 +193,17 @@ Lemma gnet_fallback_unreachable :
   (forall (buflen : nat) (compress : bool) (size : nat) (m : msg),
       wf_msg m -> msg_len m <= buflen -> exists out, pack_msg buflen compress size m = Ok out) ->
   forall (resp : msg) (size : nat), wf_msg resp ->
-  safe_proto (P_gnet (is_ok (pack_msg (msg_len resp) true size resp))).
+  safe_proto (Pown_gnet (is_ok (pack_msg (msg_len resp) true size resp))).
 Proof.
   intros Htotal resp size Hwf.
   destruct (Htotal (msg_len resp) true size resp Hwf (le_n _)) as [out ->]. cbn. exact gnet_safe.
 Qed.
 
 Lemma gnet_pack_failure_reads_released :
-  exists s, reach (P_gnet false) s /\ viol s = 1.
+  exists s, reach (Pown_gnet false) s /\ viol s = 1.
 Proof.
   set (sched := repeat (T 0 0) 7 ++ repeat (T 1 0) 21).
-  destruct (run (P_gnet false) (init (P_gnet false)) sched) as [s|] eqn:E; [|vm_compute in E; discriminate].
+  destruct (own_run (Pown_gnet false) (own_init (Pown_gnet false)) sched) as [s|] eqn:E; [|vm_compute in E; discriminate].
   exists s. split; [eapply run_reach; eauto|]. vm_compute in E. inversion E. reflexivity.
 Qed.
 
@@ -220,25 +220,25 @@ Qed.
 
 (* why it matters: if the decoded message lived in the receive buffer, the UDP handler would read memory that the
    read loop is overwriting with the next datagram *)
-Lemma udp_alias_refuted : exists s, reach P_udp_alias s /\ viol s = 2.
+Lemma udp_alias_refuted : exists s, reach Pown_udp_alias s /\ viol s = 2.
 Proof.
   set (sched := repeat (T 0 0) 10 ++ repeat (T 1 0) 2).
-  destruct (run P_udp_alias (init P_udp_alias) sched) as [s|] eqn:E; [|vm_compute in E; discriminate].
+  destruct (own_run Pown_udp_alias (own_init Pown_udp_alias) sched) as [s|] eqn:E; [|vm_compute in E; discriminate].
   exists s. split; [eapply run_reach; eauto|]. vm_compute in E. inversion E. reflexivity.
 Qed.
 
 (* ---------------- the other two mechanisms are load-bearing ---------------- *)
 (* cache: without the key re-check, Get(k1) can return the value stored for k2 in the recycled entry *)
-Lemma cache_recheck_needed : exists s, reach (P_cache false) s /\ viol s = 4.
+Lemma cache_recheck_needed : exists s, reach (Pown_cache false) s /\ viol s = 4.
 Proof.
   set (sched := [T 0 0] ++ repeat (T 1 0) 8 ++ repeat (T 2 0) 10 ++ repeat (T 0 0) 13).
-  destruct (run (P_cache false) (init (P_cache false)) sched) as [s|] eqn:E; [|vm_compute in E; discriminate].
+  destruct (own_run (Pown_cache false) (own_init (Pown_cache false)) sched) as [s|] eqn:E; [|vm_compute in E; discriminate].
   exists s. split; [eapply run_reach; eauto|]. vm_compute in E. inversion E. reflexivity.
 Qed.
 
 (* pipeline: a read loop that releases a reply it also delivered breaks single ownership *)
-Lemma pipeline_double_release_refuted : exists s, reach (P_pipeline true) s /\ viol s = 3.
+Lemma pipeline_double_release_refuted : exists s, reach (Pown_pipeline true) s /\ viol s = 3.
 Proof.
-  destruct (run (P_pipeline true) (init (P_pipeline true)) (pipe_sched 0)) as [s|] eqn:E; [|vm_compute in E; discriminate].
+  destruct (own_run (Pown_pipeline true) (own_init (Pown_pipeline true)) (pipe_sched 0)) as [s|] eqn:E; [|vm_compute in E; discriminate].
   exists s. split; [eapply run_reach; eauto|]. vm_compute in E. inversion E. reflexivity.
 Qed.
